@@ -7,6 +7,7 @@ import Just.Model.Workdir
 import Just.Model.Search
 import Just.Model.Dotenv
 import Just.Model.Unstable
+import Just.Model.Analyzer
 open Lean
 
 namespace Just.Run
@@ -114,3 +115,42 @@ partial def unstableModuleFromJson (j : Json) : Except String Unstable.Module :=
   let su ← j.getObjValAs? Bool "setUnstable"
   return .mk exprs sr si su subs
 end Just
+
+namespace Just.Analyzer
+deriving instance ToJson for Err
+
+def moduleFromJson (j : Json) : Except String Module := do
+  let assignsJ ← (← j.getObjVal? "assigns").getArr?
+  let assigns ← assignsJ.toList.mapM (fun a => do
+    let n ← (← a.getArrVal? 0).getStr?
+    let e ← exprFromJson (← a.getArrVal? 1)
+    return (n, e))
+  let recipesJ ← (← j.getObjVal? "recipes").getArr?
+  let recipes ← recipesJ.toList.mapM (fun r => do
+    let name ← r.getObjValAs? String "name"
+    let paramsJ ← (← r.getObjVal? "params").getArr?
+    let params ← paramsJ.toList.mapM (fun p => do
+      let pn ← p.getObjValAs? String "name"
+      let kindS ← p.getObjValAs? String "kind"
+      let kind := if kindS == "plus" then PKind.plus else if kindS == "star" then PKind.star else PKind.singular
+      let dJ ← p.getObjVal? "default"
+      let d ← if dJ.isNull then pure none else (do return some (← exprFromJson dJ))
+      return ({ name := pn, kind := kind, default := d } : Param))
+    let depsJ ← (← r.getObjVal? "deps").getArr?
+    let deps ← depsJ.toList.mapM (fun d => do
+      let t ← d.getObjValAs? String "target"
+      let argsJ ← (← d.getObjVal? "args").getArr?
+      let args ← argsJ.toList.mapM exprFromJson
+      return ({ target := t, args := args } : Dep))
+    let bodyJ ← (← r.getObjVal? "body").getArr?
+    let body ← bodyJ.toList.mapM (fun l => do
+      let isJ ← (← l.getObjVal? "interps").getArr?
+      let interps ← isJ.toList.mapM exprFromJson
+      let c ← l.getObjValAs? Bool "isComment"
+      let k ← l.getObjValAs? Bool "isContinuation"
+      return ({ interps := interps, isComment := c, isContinuation := k } : Line))
+    let script ← r.getObjValAs? Bool "script"
+    return ({ name := name, params := params, deps := deps, body := body, script := script } : Recipe))
+  let ic ← j.getObjValAs? Bool "ignoreComments"
+  return { assigns := assigns, recipes := recipes, ignoreComments := ic }
+end Just.Analyzer
